@@ -36,7 +36,7 @@ def _add(a, b):
 
 
 KINDS = ['translated', 'leftscal', 'leftscal_half', 'rightscal', 'rightscal_neg', 'rightscal0', 'quadpert',
-         'quadpert_a0', 'quadpert_nou', 'scalarsum', 'bregman', 'rightvec']
+         'quadpert_a0', 'quadpert_nou', 'quadpert_c', 'scalarsum', 'bregman', 'rightvec']
 
 
 def derive(kind, f, ref, cref, info):
@@ -70,9 +70,10 @@ def derive(kind, f, ref, cref, info):
             raise NotImplementedError('0 is outside the domain of the base functional')
         r = lambda z: f0
         return dict(func=g, ref=r, cref=None, arg=ident)
-    if kind in ('quadpert', 'quadpert_a0', 'quadpert_nou'):
-        a = 0.0 if kind == 'quadpert_a0' else 1.5
-        u = None if kind == 'quadpert_nou' else vec(info, _Y)
+    if kind in ('quadpert', 'quadpert_a0', 'quadpert_nou', 'quadpert_c'):
+        # quadpert_c: ONLY the constant is given (default coefficient 0, no linear term)
+        a = 0.0 if kind in ('quadpert_a0', 'quadpert_c') else 1.5
+        u = None if kind in ('quadpert_nou', 'quadpert_c') else vec(info, _Y)
         cst = 0.5
         g = odl.solvers.FunctionalQuadraticPerturb(
             f, quadratic_coeff=a, linear_term=None if u is None else _rec(info.elem(u)), constant=cst)
